@@ -349,6 +349,7 @@ func (h *Holder) IndexPath(name string) string { return filepath.Join(h.Path, na
 
 // Index returns the index by name.
 func (h *Holder) Index(name string) *Index {
+	verifPoint("holder.index", 0, 0)
 	h.mu.RLock()
 	defer h.mu.RUnlock()
 	return h.index(name)
@@ -358,6 +359,7 @@ func (h *Holder) index(name string) *Index { return h.indexes[name] }
 
 // Indexes returns a list of all indexes in the holder.
 func (h *Holder) Indexes() []*Index {
+	verifPoint("holder.indexes", 0, 0)
 	h.mu.RLock()
 	a := make([]*Index, 0, len(h.indexes))
 	for _, index := range h.indexes {
